@@ -38,7 +38,7 @@ pub fn observe(inst: &Inst, kind: &RngKind) -> Option<Observed> {
     let tr = inst.transcript();
     let tid = tr.shadow_id;
     tap::start();
-    let proof = Proof::prove_with_rng(&mut { tr }, &stmt, &inst.witness(), &mut TestRng::new(kind.clone()));
+    let proof = if matches!(kind, RngKind::Os) { Proof::prove(&mut { tr }, &stmt, &inst.witness()) } else { Proof::prove_with_rng(&mut { tr }, &stmt, &inst.witness(), &mut TestRng::new(kind.clone())) };
     let recs = tap::take();
     let proof = proof.ok()?;
     let chal = fmx::chal_of(&recs, tid)?;
